@@ -397,7 +397,9 @@ func (cc *connectUnaryClientConn) validateResponse(response *http.Response) *Err
 		if err := unmarshaler.UnmarshalFunc(
 			(*connectWireError)(&serverErr),
 			json.Unmarshal,
-		); err == nil {
+		); err == nil && serverErr.code != 0 {
+			// A body without a (non-zero) code isn't a Connect error; fall back to
+			// the HTTP status below.
 			serverErr.meta = cc.responseHeader.Clone()
 			mergeHeaders(serverErr.meta, cc.responseTrailer)
 			return &serverErr
@@ -717,6 +719,11 @@ func (u *connectStreamingUnmarshaler) Unmarshal(message any) *Error {
 	}
 	u.trailer = end.Trailer
 	u.endStreamErr = (*Error)(end.Error)
+	if u.endStreamErr != nil && u.endStreamErr.code == 0 {
+		// The server reported an error without a usable code. Errors never carry
+		// the zero (OK) code, so treat it like any other uncoded error.
+		u.endStreamErr.code = CodeUnknown
+	}
 	return errSpecialEnvelope
 }
 
